@@ -10,8 +10,8 @@
 //
 //   - Key material: drive/keys.Material — the trusted dealer (stream vh.NewRng(Seed, Prop, "deal", 0))
 //     or, with cfg.KeySource = "gennaro", the real Gennaro DKG among all holders —
-//     for cfg.Policy over cfg.Curve ("k256" | "p256"); the hash is cfg.Hash ("sha256" | "sha3-256"
-//     | "sha512").  Every holder gets a shard; the parties of cfg.Quorum sign.
+//     for cfg.Policy over cfg.Curve ("k256" | "p256"); the hash is cfg.Hash ("sha256" | "sha384" |
+//     "sha512" | "sha3-256" | "sha3-384" | "sha3-512": narrower, equal and wider than the scalar field).  Every holder gets a shard; the parties of cfg.Quorum sign.
 //   - Every party of the quorum has its own recording drive.Tape over
 //     vh.NewRng(Seed, Prop, "tape/"+label, int(id)), label = cfg.Labels[id] (default "a").
 //     tape.Mark is "new" during NewCosigner and "r<k>" while the party executes Round<k>.
@@ -149,8 +149,14 @@ func HashFunc(name string) (func() hash.Hash, error) {
 		return sha256.New, nil
 	case "sha512":
 		return sha512.New, nil
+	case "sha384":
+		return sha512.New384, nil
 	case "sha3-256":
 		return func() hash.Hash { return sha3.New256() }, nil
+	case "sha3-384":
+		return func() hash.Hash { return sha3.New384() }, nil
+	case "sha3-512":
+		return func() hash.Hash { return sha3.New512() }, nil
 	}
 	return nil, fmt.Errorf("unknown hash %q", name)
 }
